@@ -117,7 +117,7 @@ pub fn family(rng: &mut Rng, al: &[String]) -> Vec<String> {
         (0..l).map(|_| rng.pick(al).clone()).collect()
     };
     let base: String = (0..rng.below(4)).map(|_| rng.pick(al).clone()).collect();
-    let shape = rng.below(7);
+    let shape = rng.below(8);
     let mut tcs: Vec<String> = vec![];
     match shape {
         // prefix chain t, tx, txy
@@ -172,6 +172,21 @@ pub fn family(rng: &mut Rng, al: &[String]) -> Vec<String> {
                 tcs.push(s);
             }
         }
+        // periods nested three deep (((u)^i v)^j x)^k
+        4 => {
+            let u = rng.pick(al).clone();
+            let v = rng.pick(al).clone();
+            let x = rng.pick(al).clone();
+            for _ in 0..n.min(3) {
+                let inner = format!("{}{}", u.repeat(2 + rng.below(2)), v);
+                let mid = format!("{}{}", inner.repeat(2 + rng.below(2)), x);
+                let mut s = mid.repeat(2 + rng.below(2));
+                if rng.chance(1, 3) {
+                    s.push_str(&unit(rng));
+                }
+                tcs.push(s);
+            }
+        }
         // common base as prefix / suffix / infix, otherwise free
         _ => {
             for _ in 0..n {
@@ -214,7 +229,7 @@ pub fn repeat_family(rng: &mut Rng, al: &[String]) -> Vec<String> {
     let b = rng.pick(al).clone();
     let c = rng.pick(al).clone();
     let mut tcs = vec![];
-    let shape = rng.below(5);
+    let shape = rng.below(6);
     for _ in 0..n {
         let s = match shape {
             0 => format!("{}{}", a.repeat(1 + rng.below(6)), if rng.chance(1, 2) { b.clone() } else { c.clone() }),
@@ -226,6 +241,12 @@ pub fn repeat_family(rng: &mut Rng, al: &[String]) -> Vec<String> {
             3 => {
                 let inner = format!("{}{}", a.repeat(1 + rng.below(3)), b);
                 format!("{}{}", inner.repeat(1 + rng.below(4)), c.repeat(rng.below(3)))
+            }
+            4 => {
+                // three levels: ((a^i b)^j c)^k
+                let inner = format!("{}{}", a.repeat(2 + rng.below(2)), b);
+                let mid = format!("{}{}", inner.repeat(2 + rng.below(2)), c);
+                mid.repeat(2 + rng.below(2))
             }
             _ => {
                 let mut s = String::new();
